@@ -360,6 +360,9 @@ class LabeledDirectedGraph {
         Edges(const LabeledDirectedGraph<EdgeLabel> &graph) : graph(graph) {}
 
         constEdgeIterator begin() const {
+            if (graph.getSize() == 0)
+                return end();
+
             VertexIndex endVertex = getEndVertex(graph);
 
             VertexIndex vertexWithFirstEdge = 0;
@@ -375,6 +378,12 @@ class LabeledDirectedGraph {
             return constEdgeIterator(graph, vertexWithFirstEdge, neighbour);
         }
         constEdgeIterator end() const {
+            // A graph without vertices has no neighbour list to point into
+            if (graph.getSize() == 0)
+                return constEdgeIterator(
+                    graph, 0, Successors::const_iterator()
+                );
+
             VertexIndex endVertex = getEndVertex(graph);
             return constEdgeIterator(
                 graph, endVertex, graph.getOutNeighbours(endVertex).end()
